@@ -17,6 +17,24 @@ import sysconfig
 
 from tools import common, shroudrun
 
+# further element types of the list converters: (flat name, C type, bits, signed); bits 0 = float
+ELEMS = [("short", "short", 16, True), ("unsigned_short", "unsigned short", 16, False), ("unsigned_int", "unsigned int", 32, False),
+         ("long", "long", 64, True), ("unsigned_long", "unsigned long", 64, False),
+         ("int8_t", "int8_t", 8, True), ("uint8_t", "uint8_t", 8, False), ("int16_t", "int16_t", 16, True),
+         ("uint16_t", "uint16_t", 16, False), ("int32_t", "int32_t", 32, True), ("uint32_t", "uint32_t", 32, False),
+         ("int64_t", "int64_t", 64, True), ("uint64_t", "uint64_t", 64, False), ("float", "float", 0, True)]
+ELEM_DECLS = "".join("- decl: long sum_%s(const %s *arr +rank(1), int n +implied(size(arr)))\n" % (f, t) for f, t, _b, _s in ELEMS)
+ELEM_PROTOS = "#include <stdint.h>\n" + "".join("long sum_%s(const %s *arr, int n);\n" % (f, t) for f, t, _b, _s in ELEMS)
+
+
+def elem_getlists(prefix):
+    out = []
+    for f, t, bits, signed in ELEMS:
+        mk = "PyFloat_FromDouble" if bits == 0 else ("PyLong_FromUnsignedLong" if (bits == 64 and not signed) else "PyLong_FromLong")
+        out.append("GETLIST(hd_get_%s, %s, %sget_from_object_%s_list, %s)" % (f, t, prefix, f, mk))
+    return "\n".join(out)
+
+
 YAML = """\
 library: hlp
 cxx_header: %(hdr)s
@@ -37,7 +55,7 @@ declarations:
 - decl: void dscale(double *arr +rank(1)+intent(inout), int n +implied(size(arr)), double k)
 - decl: int nstr(char **names +intent(in), int n +implied(size(names)))
 - decl: int asum(const Arr *a)
-%(vec)s"""
+%(elems)s%(vec)s"""
 
 VEC_DECLS = """\
 - decl: int vsum(const std::vector<int> &v)
@@ -54,7 +72,7 @@ void iscale(int *arr, int n, int k);
 void dscale(double *arr, int n, double k);
 int nstr(char **names, int n);
 int asum(const Arr *a);
-#ifdef __cplusplus
+%(elems)s#ifdef __cplusplus
 #include <vector>
 int vsum(const std::vector<int> &v);
 double vdsum(const std::vector<double> &v);
@@ -124,6 +142,7 @@ PyObject *NAME(PyObject *obj)                                                   
 }
 GETLIST(hd_get_int, int, %(prefix)sget_from_object_int_list, PyLong_FromLong)
 GETLIST(hd_get_double, double, %(prefix)sget_from_object_double_list, PyFloat_FromDouble)
+%(elem_getlists)s
 
 #define FILL(NAME, T, FUNC, MK, INIT)                                            \\
 PyObject *NAME(PyObject *obj, long insize)                                       \\
@@ -211,6 +230,9 @@ def mk(spec):
     if k == "none": return None
     if k == "bytes": return v.encode()
     return v
+for n in sorted(set(c["op"] for c in cases if c["op"].startswith("hd_get_"))):
+    getattr(lib, n).restype = ctypes.py_object
+    getattr(lib, n).argtypes = [ctypes.py_object]
 out = []
 for c in cases:
     obj = mk(c["obj"])
@@ -277,18 +299,18 @@ def run(ctx, drv, accepts, thorough, dis):
         try:
             cxx = lang != "c"
             hdr = "hlp.hpp" if cxx else "hlp.h"
-            y = shroudrun.write_yaml(d, "hlp.yaml", YAML % {"hdr": hdr, "lang": lang, "vec": VEC_DECLS if lang != "c" else ""})
-            open(os.path.join(d, hdr), "w").write(HEADER)
+            y = shroudrun.write_yaml(d, "hlp.yaml", YAML % {"hdr": hdr, "lang": lang, "vec": VEC_DECLS if lang != "c" else "", "elems": ELEM_DECLS})
+            open(os.path.join(d, hdr), "w").write(HEADER % {"elems": ELEM_PROTOS})
             out = os.path.join(d, "out")
             os.makedirs(out)
             cfg, exc, _ = shroudrun.run_inproc([y], out, path=[d])
             if exc is not None:
-                ctx.fail("generate:helpers-" + lang, "Shroud fails on the list-mode helper library: %r" % (exc,), {"yaml": YAML % {"hdr": hdr, "lang": lang, "vec": VEC_DECLS if lang != "c" else ""}})
+                ctx.fail("generate:helpers-" + lang, "Shroud fails on the list-mode helper library: %r" % (exc,), {"yaml": YAML % {"hdr": hdr, "lang": lang, "vec": VEC_DECLS if lang != "c" else "", "elems": ELEM_DECLS}})
                 continue
             ext = ".cpp" if cxx else ".c"
             modhdr = "pyhlpmodule" + (".hpp" if cxx else ".h")
             open(os.path.join(d, "hd_alloc.h"), "w").write(ALLOC_H)
-            open(os.path.join(d, "hd" + ext), "w").write(HD_SRC % {"modhdr": modhdr, "prefix": "HLP_SHROUD_"})
+            open(os.path.join(d, "hd" + ext), "w").write(HD_SRC % {"modhdr": modhdr, "prefix": "HLP_SHROUD_", "elem_getlists": elem_getlists("HLP_SHROUD_")})
             so = os.path.join(d, "libhd.so")
             base = (["g++", "-std=c++11"] if cxx else ["gcc", "-std=c99", "-D_POSIX_C_SOURCE=200809L"]) + \
                 ["-fPIC", "-O0", "-w", "-I" + inc, "-I" + d, "-I" + out, "-c"]
@@ -300,7 +322,7 @@ def run(ctx, drv, accepts, thorough, dis):
                                 stdout=subprocess.PIPE, stderr=subprocess.STDOUT, text=True)
             if p1.returncode or p2.returncode or p3.returncode:
                 ctx.fail("compile:helpers-" + lang, "list-mode helper file does not compile: " + (p1.stdout + p2.stdout + p3.stdout)[-700:],
-                         {"yaml": YAML % {"hdr": hdr, "lang": lang, "vec": VEC_DECLS if lang != "c" else ""}})
+                         {"yaml": YAML % {"hdr": hdr, "lang": lang, "vec": VEC_DECLS if lang != "c" else "", "elems": ELEM_DECLS}})
                 continue
             cases, reqs = [], []
             for obj in gen_objects(thorough):
@@ -310,6 +332,10 @@ def run(ctx, drv, accepts, thorough, dis):
                     ops += [("hd_vec_int", "i"), ("hd_vec_long", "i"), ("hd_vec_double", "d")]
                 for op, key in ops:
                     cases.append({"op": op, "obj": obj, "items": items, "conv": key})
+                    reqs.append("getlist %s %s" % (".".join(map(str, accepts[key])), ms))
+                for f_, _t, bits, signed in ELEMS:
+                    key = "d" if bits == 0 else "i"
+                    cases.append({"op": "hd_get_" + f_, "obj": obj, "items": items, "conv": key, "wrap": (bits, signed)})
                     reqs.append("getlist %s %s" % (".".join(map(str, accepts[key])), ms))
                 for insize in ((0, 1, 2, 3, 5) if thorough else (0, 2, 3)):
                     for op, key in (("hd_fill_int", "i"), ("hd_fill_double", "d")):
@@ -334,7 +360,7 @@ def run(ctx, drv, accepts, thorough, dis):
                                stderr=subprocess.PIPE, text=True, timeout=600)
             if p.returncode != 0 or not os.path.exists(rf):
                 ctx.fail("crash:helpers-" + lang, "driving the list-mode helpers crashed (rc=%s): %s" % (p.returncode, p.stderr[-400:]),
-                         {"yaml": YAML % {"hdr": hdr, "lang": lang, "vec": VEC_DECLS if lang != "c" else ""}})
+                         {"yaml": YAML % {"hdr": hdr, "lang": lang, "vec": VEC_DECLS if lang != "c" else "", "elems": ELEM_DECLS}})
                 continue
             results = json.load(open(rf))
             model = drv.run(reqs)
@@ -382,6 +408,23 @@ def cval(item, conv):
         return int(v)
     if conv == "d":
         return float(v)
+    return v
+
+
+def wrap_c(v, wrap):
+    """the converted value stored in an element of the given C type (conversion modulo 2^bits; float: single precision)"""
+    if not wrap:
+        return v
+    bits, signed = wrap
+    if bits == 0:
+        import struct
+        try:
+            return struct.unpack("f", struct.pack("f", v))[0]
+        except OverflowError:
+            return float("inf") if v > 0 else float("-inf")
+    v %= 1 << bits
+    if signed and v >= 1 << (bits - 1):
+        v -= 1 << bits
     return v
 
 
@@ -439,7 +482,7 @@ def judge(c, res, m):
         if before < int(parts[3]) or after != 0:
             return "allocations before/after release %d/%d" % (before, after)
         return None
-    want = [cval(c["items"][int(t[1:])], c["conv"]) for t in toks]
+    want = [wrap_c(cval(c["items"][int(t[1:])], c["conv"]), c.get("wrap")) for t in toks]
     if list(lst) != want:
         return "values %r, model %r" % (lst, want)
     if c["op"].startswith("hd_vec"):
@@ -496,7 +539,7 @@ def member_oracle(ctx, thorough):
         try:
             cxx = lang != "c"
             hdr = "rec.hpp" if cxx else "rec.h"
-            ytext = REC_YAML % {"hdr": hdr, "lang": lang, "vec": VEC_DECLS if lang != "c" else ""}
+            ytext = REC_YAML % {"hdr": hdr, "lang": lang, "vec": VEC_DECLS if lang != "c" else "", "elems": ELEM_DECLS}
             y = shroudrun.write_yaml(d, "rec.yaml", ytext)
             open(os.path.join(d, hdr), "w").write(REC_HEADER)
             out = os.path.join(d, "out")
